@@ -4,7 +4,7 @@ from common import *  # noqa: F401,F403
 RULE = ("random curves (Bezier, multi-span, repeated knots, rational; degree 0..3, t in 1..3): degree_increase(t) and the degree setter; "
         "elevate-then-reduce round trips; reduction of generic curves (refused with the default tolerance, forced with tolerance=None); "
         "invalid arguments.  Non-trivial: an interior knot or degree >= 2; distinct = distinct (U,P,W,t,mode)."
-        " Also: reductions by two (partly reducible curves, vanishing double knots), multi-span elevation to final degree 7..10, float twin first.")
+        " Also: reductions by two (partly reducible curves, vanishing double knots), multi-span elevation to final degree 7..10, float twin first; control points far from the origin (1e3..1e6) with a moderate defect.")
 EXPLANATION = ("L2: state after elevation / reduction vs the model (split + Bezier elevation + least-squares removal, exact); L3: `rf.eq` "
                "before/after, knot pattern (every distinct knot +t), atomic refusal, interpolation at the remaining knots for forced reduction.")
 ASSUMPTIONS = ["weights positive"]
@@ -138,6 +138,21 @@ def run(ctx):
             U = [a] * (p_ + 1) + [a + (b - a) * x for x in inner for _ in range(rng.choice([2, 2, 3]))] + [b] * (p_ + 1)
             P = rand_points(rng, kv_info(U)[1], rng.choice([1, 2]))
             run_case(ctx, ser(dict(kind="degree", U=U, P=P, W=None, t=2, mode="forced")))
+    for i in range(budget(ctx, 10, 120)):
+        # control points far from the origin (1e3 .. 1e6) with a moderate defect: the curve is an elevated curve with one control point
+        # moved by 1/100 .. 1, so it is not representable one degree lower and the (absolute) default tolerance must refuse the reduction
+        p_ = rng.randint(1, 2)
+        U0 = rand_kv(rng, p=p_, nint=rng.randint(0, 2), maxmult=p_)
+        off = F(10 ** rng.randint(3, 6))
+        P0 = [tuple(x * rng.choice([1, 100, 1000]) + off for x in q) for q in rand_points(rng, kv_info(U0)[1], rng.choice([1, 2]))]
+        m = ctx["drv"].call("curve.deginc", *curve_args(U0, P0, None), 1)
+        if m[0] != "ok":
+            continue
+        U1, P1, _ = model_curve_state(m[1])
+        P1 = [list(q) for q in P1]
+        j = rng.randrange(1, len(P1) - 1) if len(P1) > 2 else 0
+        P1[j][0] += F(1, rng.choice([1, 10, 100]))
+        run_case(ctx, ser(dict(kind="degree", U=list(U1), P=[tuple(q) for q in P1], W=None, t=1, mode="reduce")))
     for i in range(budget(ctx, 70, 900)):
         mode = rng.choice(["elevate", "elevate", "setter", "roundtrip", "roundtrip", "roundtrip", "reduce", "forced", "invalid"])
         U, P, W = rand_curve(rng, pmax=3, nintmax=2, force_zero=(i % 6 == 0))
